@@ -45,8 +45,9 @@ ASSUMPTIONS = [
     "cell_faces in canonical form, tags, geometry compared bitwise before/after); all "
     "queries of one grid run on ONE grid object, so a query that damaged the incidence "
     "would also corrupt the answers of the queries after it",
-    "the diagonal of cell_connection_map is not constrained (property: symmetric, "
-    "neighbours = cells sharing a face)",
+    "cell_connection_map is compared by VALUE (toarray), not by sparsity pattern: entry "
+    "(i,j) is True iff cells i and j share at least one face, for i == j iff the cell has "
+    "a face; letters with two cells sharing 1, 2, 127, 128, 129, 255, 256, 257 faces",
     "as-built tags: domain_boundary_faces == one-neighbour faces for unfractured grids "
     "and extracted subgrids; union of domain/fracture/tip tags == one-neighbour faces "
     "for the subdomains produced by pp.meshing.cart_grid",
@@ -74,6 +75,8 @@ def cases(tier):
         out.append({"src": "base", "name": name, "spec": spec})
     for f in G.FRAC:
         out.append({"src": "frac", "name": f})
+    for k in (1, 2, 127, 128, 129, 255, 256, 257):
+        out.append({"src": "multi", "k": k})
     out.append({"src": "seq", "seq": "propagate"})
     for name in ("C2", "C22", "T22", "K111", "C211"):
         out.append({"src": "seq", "seq": "drop-cell", "name": name, "spec": dict(G.base_specs("thorough"))[name]})
@@ -147,6 +150,8 @@ def check_grid(g, label, out: Outcome, born="plain"):
             bad = "not symmetric"
         elif not np.array_equal(Md[off], exp[off]):
             bad = "off-diagonal pattern differs from cells sharing a face"
+        elif not np.array_equal(np.diag(Md), np.diag(exp)):
+            bad = "diagonal: a cell with faces must be connected to itself (value of the entry, not the sparsity pattern)"
         ev("connection_map", shape_cls + ("/connected" if _connected(exp) else "/disconnected"), bad, got=Md, expected=exp)
     except Exception as e:
         ev("connection_map", "", "raised", error=repr(e))
@@ -309,7 +314,7 @@ def fresh_results(g, label, out: Outcome, nontriv=True):
 
     def v_c2c(r):
         M = np.asarray(r.toarray()).astype(bool)
-        return M.shape == (nc, nc) and np.array_equal(M, M.T) and np.array_equal(M[off], exp_c2c[off])
+        return M.shape == (nc, nc) and np.array_equal(M, M.T) and np.array_equal(M, exp_c2c)
 
     def v_cn(r):
         M = np.asarray(r.toarray()).astype(bool)
@@ -382,6 +387,31 @@ def fresh_results(g, label, out: Outcome, nontriv=True):
         out.ev("VIOLATION")
 
 
+def multi_face_grid(k):
+    """Two polygonal cells [0,1]x[0,1] and [1,2]x[0,1] whose common side is subdivided
+    into k faces (agglomerated-grid situation: two cells sharing many faces)."""
+    import porepy as pp
+    import scipy.sparse as sps
+
+    # nodes: interface points (1, i/k), then the four outer corners
+    ys = np.arange(k + 1) / k
+    nodes = np.zeros((3, k + 5))
+    nodes[0, : k + 1] = 1.0
+    nodes[1, : k + 1] = ys
+    nodes[:2, k + 1 :] = np.array([[0, 0, 2, 2], [0, 1, 0, 1]])
+    a, b, c, d = k + 1, k + 2, k + 3, k + 4  # (0,0) (0,1) (2,0) (2,1)
+    faces = [[i, i + 1] for i in range(k)]  # interface, bottom to top
+    faces += [[a, 0], [k, b], [b, a]]  # left cell: bottom, top, left (counter-clockwise)
+    faces += [[0, c], [c, d], [d, k]]  # right cell: bottom, right, top
+    ind = np.hstack(faces)
+    fn = sps.csc_matrix((np.ones(ind.size), ind, np.arange(0, ind.size + 1, 2)), shape=(k + 5, k + 6))
+    rows = np.r_[np.arange(k), k, k + 1, k + 2, np.arange(k), k + 3, k + 4, k + 5]
+    cols = np.r_[np.zeros(k + 3, int), np.ones(k + 3, int)]
+    vals = np.r_[np.ones(k + 3, int), -np.ones(k, int), np.ones(3, int)]
+    cf = sps.csc_matrix((vals, (rows, cols)), shape=(k + 6, 2))
+    return pp.Grid(2, nodes, fn, cf, f"two cells sharing {k} faces")
+
+
 def _run_sequence(case, out: Outcome):
     """Queries, then an in-place change of the topology of the SAME grid object, then the
     queries again (all against the dense incidence of the object as it is then)."""
@@ -448,6 +478,10 @@ def run_case(case) -> Outcome:
             check_grid(g, label, out, born="frac")
     elif case["src"] == "seq":
         _run_sequence(case, out)
+    elif case["src"] == "multi":
+        g = multi_face_grid(case["k"])
+        check_grid(g, f"multi{case['k']}", out)
+        out.samples.append({"grid": f"two cells sharing {case['k']} faces", "faces": g.num_faces})
     else:
         g = G.build(case["spec"])
         for c in itertools.combinations(range(g.num_cells), case["k"]):
